@@ -89,13 +89,768 @@ theorem scopeSorts_drop_subset (n : Nat) (ls : List Level) : ∀ s ∈ scopeSort
   simp only [scopeSorts, List.mem_flatMap] at hs ⊢
   obtain ⟨l, hl, h⟩ := hs
   exact ⟨l, List.mem_of_mem_drop hl, h⟩
-@[simp] theorem scopeSyms_replicate (n : Nat) (ls : List Level) : scopeSyms (List.replicate n {} ++ ls) = scopeSyms ls := by
+@[simp] theorem scopeSyms_replicate (n : Nat) (ls : List Level) :
+    scopeSyms (List.replicate n ({} : Level) ++ ls) = scopeSyms ls := by
   induction n with
   | zero => simp
-  | succ k ih => simp only [List.replicate_succ, List.cons_append, scopeSyms, List.flatMap_cons] at ih ⊢; simpa using ih
-@[simp] theorem scopeSorts_replicate (n : Nat) (ls : List Level) : scopeSorts (List.replicate n {} ++ ls) = scopeSorts ls := by
+  | succ k ih => simp only [List.replicate_succ, List.cons_append, scopeSyms, List.flatMap_cons] at ih ⊢; simp
+@[simp] theorem scopeSorts_replicate (n : Nat) (ls : List Level) :
+    scopeSorts (List.replicate n ({} : Level) ++ ls) = scopeSorts ls := by
   induction n with
   | zero => simp
-  | succ k ih => simp only [List.replicate_succ, List.cons_append, scopeSorts, List.flatMap_cons] at ih ⊢; simpa using ih
+  | succ k ih => simp only [List.replicate_succ, List.cons_append, scopeSorts, List.flatMap_cons] at ih ⊢; simp
+
+/-! ## the invariant -/
+
+/-- The formulas of one environment: one symbol per name, one sort declaration per name
+    (`FormulaManager` / `TypeManager` guarantee this; C04). -/
+structure Universe where
+  sym : Sym → Prop
+  sort : SortDecl → Prop
+  sym_inj : ∀ s t, sym s → sym t → s.name = t.name → s = t
+  sort_inj : ∀ d e, sort d → sort e → d.name = e.name → d = e
+
+/-- a term of the environment: its symbols and sorts belong to the universe, and its sort list covers the sorts
+    occurring in the signatures of its symbols (`get_types` expands the types of all symbols) -/
+structure ExprOk (U : Universe) (e : Expr) : Prop where
+  syms : ∀ s ∈ e.syms, U.sym s
+  sorts : ∀ d ∈ e.sorts, U.sort d
+  covers : ∀ s ∈ e.syms, ∀ u ∈ s.uses, ∃ d ∈ e.sorts, d.name = u
+
+variable {O : Oracle}
+
+abbrev W (O : Oracle) := WState (Solver.strict O)
+
+abbrev levelsOf (w : W O) : List Level := w.chan.solver.1.levels
+
+structure Inv (U : Universe) (w : W O) : Prop where
+  queue : w.chan.queue = []
+  alive : w.dead = false
+  logic : w.chan.solver.1.logicSet = true
+  notExited : w.chan.solver.1.exited = false
+  vars : w.vars = (levelsOf w).map (·.syms)
+  sorts : w.sorts = (levelsOf w).map (·.sorts)
+  nonempty : levelsOf w ≠ []
+  pending : w.pendingPop = true → 2 ≤ (levelsOf w).length
+  accepted : exec O (State.init, O.init) (stream w) = some w.chan.solver
+  usyms : ∀ s ∈ scopeSyms (levelsOf w), U.sym s
+  usorts : ∀ d ∈ scopeSorts (levelsOf w), U.sort d
+
+theorem exec_snoc (s₀ s : State × O.ω) (cs : List Cmd) (c : Cmd) (h : exec O s₀ cs = some s)
+    (hr : (respond O s c).2.isError = false) : exec O s₀ (cs ++ [c]) = some (respond O s c).1 := by
+  induction cs generalizing s₀ with
+  | nil => simp only [exec] at h; cases h; simp [exec, hr]
+  | cons d ds ih =>
+    simp only [exec, List.cons_append] at h ⊢
+    split at h
+    · cases h
+    · rename_i hd; simp only [hd]; exact ih _ h
+
+theorem stream_snoc_pair {S : Solver} (w w' : WState S) (c : Cmd) (r : Reply)
+    (h : w'.chan.trace = w.chan.trace ++ [Event.send c, Event.recv r]) : stream w' = stream w ++ [c] := by
+  simp [stream, h, List.filterMap_append]
+
+theorem respond_silent (s : State × O.ω) (c : Cmd) (hl : legal s.1 c = true)
+    (hc : c ≠ .checkSat) (hg : ∀ e, c ≠ .getValue e) :
+    respond O s c = ((next s.1 .unknown c, s.2), .success) := by
+  cases c <;> first
+    | exact absurd rfl hc
+    | exact absurd rfl (hg _)
+    | simp only [respond, hl, if_true]
+
+/-- a legal command that is answered `success`, seen from the wrapper -/
+theorem sendSilent_strict (w : W O) (c : Cmd) (hq : w.chan.queue = []) (hl : legal w.chan.solver.1 c = true)
+    (hc : c ≠ .checkSat) (hg : ∀ e, c ≠ .getValue e) :
+    sendSilent c w = ({ w with chan := ⟨(next w.chan.solver.1 .unknown c, w.chan.solver.2), [],
+        w.chan.trace ++ [.send c, .recv .success]⟩ }, .ok ()) := by
+  have hr : respond O w.chan.solver c = ((next w.chan.solver.1 .unknown c, w.chan.solver.2), .success) :=
+    respond_silent _ c hl hc hg
+  show (send c >>= fun _ => recv >>= fun r => if r = Reply.success then pure () else M.throw .solverError) w = _
+  simp only [M.run_bind, send, M.run_modify, recv, hq, List.nil_append, hr, if_true, List.append_assoc,
+    List.cons_append]
+  rfl
+
+theorem next_logicSet (st : State) (v : Verdict) (c : Cmd) (h : st.logicSet = true) : (next st v c).logicSet = true := by
+  cases c <;> simp [next, h]
+
+theorem next_exited (st : State) (v : Verdict) (c : Cmd) (h : st.exited = false) (hx : c ≠ .exit) :
+    (next st v c).exited = false := by
+  cases c <;> first | exact absurd rfl hx | simp [next, h]
+
+/-- the object after a legal, silently acknowledged command and a bookkeeping update -/
+def silentState (w : W O) (c : Cmd) (vars' : List (List Sym)) (sorts' : List (List SortDecl)) (pp' : Bool) : W O :=
+  { vars := vars', sorts := sorts', pendingPop := pp', dead := w.dead,
+    chan := ⟨(next w.chan.solver.1 .unknown c, w.chan.solver.2), [], w.chan.trace ++ [.send c, .recv .success]⟩ }
+
+/-- the invariant after a legal, silently acknowledged command and the matching bookkeeping update -/
+theorem Inv.afterSilent {U : Universe} {w : W O} (hI : Inv U w) (c : Cmd) (hl : legal w.chan.solver.1 c = true)
+    (hc : c ≠ .checkSat) (hg : ∀ e, c ≠ .getValue e) (hx : c ≠ .exit)
+    (vars' : List (List Sym)) (sorts' : List (List SortDecl)) (pp' : Bool)
+    (hv : vars' = (next w.chan.solver.1 .unknown c).levels.map (·.syms))
+    (hs : sorts' = (next w.chan.solver.1 .unknown c).levels.map (·.sorts))
+    (hne : (next w.chan.solver.1 .unknown c).levels ≠ [])
+    (hp : pp' = true → 2 ≤ (next w.chan.solver.1 .unknown c).levels.length)
+    (hus : ∀ s ∈ scopeSyms (next w.chan.solver.1 .unknown c).levels, U.sym s)
+    (hud : ∀ d ∈ scopeSorts (next w.chan.solver.1 .unknown c).levels, U.sort d) :
+    Inv U (silentState w c vars' sorts' pp') where
+  queue := rfl
+  alive := hI.alive
+  logic := next_logicSet _ _ _ hI.logic
+  notExited := next_exited _ _ _ hI.notExited hx
+  vars := hv
+  sorts := hs
+  nonempty := hne
+  pending := hp
+  accepted := by
+    have h := exec_snoc _ _ _ c hI.accepted (by rw [respond_silent _ c hl hc hg]; rfl)
+    rw [respond_silent _ c hl hc hg] at h
+    rw [stream_snoc_pair w _ c .success rfl]
+    exact h
+  usyms := hus
+  usorts := hud
+
+/-! ## declarations -/
+
+theorem sortName_fresh {U : Universe} {w : W O} (hI : Inv U w) (d : SortDecl) (hd : U.sort d)
+    (hn : inAny w.sorts d = false) : sortNameInScope (levelsOf w) d.name = false := by
+  cases h : sortNameInScope (levelsOf w) d.name with
+  | false => rfl
+  | true =>
+    obtain ⟨d', hd', hname⟩ := (sortNameInScope_iff _ _).mp h
+    have : d' = d := U.sort_inj _ _ (hI.usorts _ hd') hd hname
+    subst this
+    rw [hI.sorts, inAny_map_sorts, (sortInScope_iff _ _).mpr hd'] at hn
+    cases hn
+
+theorem symName_fresh {U : Universe} {w : W O} (hI : Inv U w) (s : Sym) (hs : U.sym s)
+    (hn : inAny w.vars s = false) : symNameInScope (levelsOf w) s.name = false := by
+  cases h : symNameInScope (levelsOf w) s.name with
+  | false => rfl
+  | true =>
+    obtain ⟨s', hs', hname⟩ := (symNameInScope_iff _ _).mp h
+    have : s' = s := U.sym_inj _ _ (hI.usyms _ hs') hs hname
+    subst this
+    rw [hI.vars, inAny_map_syms, (symInScope_iff _ _).mpr hs'] at hn
+    cases hn
+
+theorem declareSort_ok {U : Universe} {w : W O} (hI : Inv U w) (d : SortDecl) (hd : U.sort d)
+    (hn : inAny w.sorts d = false) :
+    ∃ w', declareSort d w = (w', .ok ()) ∧ Inv U w' ∧ w'.pendingPop = w.pendingPop ∧
+      levelsOf w' = addSort d (levelsOf w) ∧ w'.chan.solver.2 = w.chan.solver.2 := by
+  have hl : legal w.chan.solver.1 (.declareSort d) = true := by
+    have := sortName_fresh hI d hd hn
+    simp only [levelsOf] at this
+    simp [legal, hI.notExited, hI.logic, this]
+  refine ⟨silentState w (.declareSort d) w.vars (addTop d w.sorts) w.pendingPop, ?_, ?_, rfl, rfl, rfl⟩
+  · show (sendSilent (.declareSort d) >>= fun _ => M.modify fun w => { w with sorts := addTop d w.sorts }) w = _
+    rw [M.bind_ok (sendSilent_strict w _ hI.queue hl (by simp) (by simp))]
+    rfl
+  · refine hI.afterSilent (.declareSort d) hl (by simp) (by simp) (by simp) _ _ _ ?_ ?_ ?_ ?_ ?_ ?_
+    · simp only [next, map_syms_addSort]; exact hI.vars
+    · simp only [next, map_sorts_addSort]; rw [hI.sorts]
+    · simp only [next]; exact ne_nil_of_length (length_addSort _ _) hI.nonempty
+    · simp only [next, length_addSort]; exact hI.pending
+    · simp only [next, scopeSyms_addSort]; exact hI.usyms
+    · simp only [next]
+      rw [scopeSorts_addSort _ _ (show w.chan.solver.1.levels ≠ [] from hI.nonempty)]
+      intro d' hd'
+      rcases List.mem_cons.mp hd' with rfl | h
+      · exact hd
+      · exact hI.usorts _ h
+
+theorem declareVar_ok {U : Universe} {w : W O} (hI : Inv U w) (s : Sym) (hs : U.sym s)
+    (hn : inAny w.vars s = false) (hu : ∀ u ∈ s.uses, sortNameInScope (levelsOf w) u = true) :
+    ∃ w', declareVar s w = (w', .ok ()) ∧ Inv U w' ∧ w'.pendingPop = w.pendingPop ∧
+      levelsOf w' = addSym s (levelsOf w) ∧ w'.chan.solver.2 = w.chan.solver.2 := by
+  have hl : legal w.chan.solver.1 (.declareFun s) = true := by
+    have := symName_fresh hI s hs hn
+    simp only [levelsOf] at this hu
+    simp only [legal, hI.notExited, hI.logic, this, Bool.not_false, Bool.true_and, List.all_eq_true]
+    exact hu
+  refine ⟨silentState w (.declareFun s) (addTop s w.vars) w.sorts w.pendingPop, ?_, ?_, rfl, rfl, rfl⟩
+  · show (sendSilent (.declareFun s) >>= fun _ => M.modify fun w => { w with vars := addTop s w.vars }) w = _
+    rw [M.bind_ok (sendSilent_strict w _ hI.queue hl (by simp) (by simp))]
+    rfl
+  · refine hI.afterSilent (.declareFun s) hl (by simp) (by simp) (by simp) _ _ _ ?_ ?_ ?_ ?_ ?_ ?_
+    · simp only [next, map_syms_addSym]; rw [hI.vars]
+    · simp only [next, map_sorts_addSym]; exact hI.sorts
+    · simp only [next]; exact ne_nil_of_length (length_addSym _ _) hI.nonempty
+    · simp only [next, length_addSym]; exact hI.pending
+    · simp only [next]
+      rw [scopeSyms_addSym _ _ (show w.chan.solver.1.levels ≠ [] from hI.nonempty)]
+      intro s' hs'
+      rcases List.mem_cons.mp hs' with rfl | h
+      · exact hs
+      · exact hI.usyms _ h
+    · simp only [next, scopeSorts_addSym]; exact hI.usorts
+
+@[simp] theorem map_asserts_addSort (d : SortDecl) (ls : List Level) : (addSort d ls).map (·.asserts) = ls.map (·.asserts) := by
+  cases ls <;> simp [addSort]
+@[simp] theorem map_asserts_addSym (s : Sym) (ls : List Level) : (addSym s ls).map (·.asserts) = ls.map (·.asserts) := by
+  cases ls <;> simp [addSym]
+
+/-- what a block of declarations leaves untouched -/
+structure Frame (w w' : W O) : Prop where
+  pending : w'.pendingPop = w.pendingPop
+  length : (levelsOf w').length = (levelsOf w).length
+  asserts : (levelsOf w').map (·.asserts) = (levelsOf w).map (·.asserts)
+  oracle : w'.chan.solver.2 = w.chan.solver.2
+  symsMono : ∀ s, symInScope (levelsOf w) s = true → symInScope (levelsOf w') s = true
+  sortsMono : ∀ d, sortInScope (levelsOf w) d = true → sortInScope (levelsOf w') d = true
+  sortNamesMono : ∀ n, sortNameInScope (levelsOf w) n = true → sortNameInScope (levelsOf w') n = true
+
+theorem Frame.refl (w : W O) : Frame w w := ⟨rfl, rfl, rfl, rfl, fun _ h => h, fun _ h => h, fun _ h => h⟩
+
+theorem Frame.trans {w w' w'' : W O} (a : Frame w w') (b : Frame w' w'') : Frame w w'' :=
+  ⟨b.pending.trans a.pending, b.length.trans a.length, b.asserts.trans a.asserts, b.oracle.trans a.oracle,
+   fun s h => b.symsMono s (a.symsMono s h), fun d h => b.sortsMono d (a.sortsMono d h),
+   fun n h => b.sortNamesMono n (a.sortNamesMono n h)⟩
+
+theorem frame_addSort {w w' : W O} (d : SortDecl) (hne : levelsOf w ≠ []) (hp : w'.pendingPop = w.pendingPop)
+    (hl : levelsOf w' = addSort d (levelsOf w)) (ho : w'.chan.solver.2 = w.chan.solver.2) : Frame w w' := by
+  refine ⟨hp, by rw [hl, length_addSort], by rw [hl, map_asserts_addSort], ho, ?_, ?_, ?_⟩
+  · intro s h; rw [symInScope_iff] at h ⊢; rw [hl, scopeSyms_addSort]; exact h
+  · intro d' h; rw [sortInScope_iff] at h ⊢; rw [hl, scopeSorts_addSort _ _ hne]; exact List.mem_cons_of_mem _ h
+  · intro n h; rw [sortNameInScope_iff] at h ⊢; rw [hl, scopeSorts_addSort _ _ hne]
+    obtain ⟨d', hd', hn⟩ := h; exact ⟨d', List.mem_cons_of_mem _ hd', hn⟩
+
+theorem frame_addSym {w w' : W O} (s : Sym) (hne : levelsOf w ≠ []) (hp : w'.pendingPop = w.pendingPop)
+    (hl : levelsOf w' = addSym s (levelsOf w)) (ho : w'.chan.solver.2 = w.chan.solver.2) : Frame w w' := by
+  refine ⟨hp, by rw [hl, length_addSym], by rw [hl, map_asserts_addSym], ho, ?_, ?_, ?_⟩
+  · intro s' h; rw [symInScope_iff] at h ⊢; rw [hl, scopeSyms_addSym _ _ hne]; exact List.mem_cons_of_mem _ h
+  · intro d' h; rw [sortInScope_iff] at h ⊢; rw [hl, scopeSorts_addSym]; exact h
+  · intro n h; rw [sortNameInScope_iff] at h ⊢; rw [hl, scopeSorts_addSym]; exact h
+
+theorem declareMissingSorts_ok {U : Universe} : ∀ (ds : List SortDecl) {w : W O}, Inv U w → (∀ d ∈ ds, U.sort d) →
+    ∃ w', declareMissingSorts ds w = (w', .ok ()) ∧ Inv U w' ∧ Frame w w' ∧
+      (levelsOf w').map (·.syms) = (levelsOf w).map (·.syms) ∧
+      (∀ d ∈ ds, sortInScope (levelsOf w') d = true)
+  | [], w, hI, _ => ⟨w, rfl, hI, Frame.refl w, rfl, by simp⟩
+  | d :: ds, w, hI, hU => by
+    have hstep : declareMissingSorts (d :: ds) w =
+        (if inAny w.sorts d then declareMissingSorts ds else declareSort d >>= fun _ => declareMissingSorts ds) w := rfl
+    rw [hstep]
+    by_cases hin : inAny w.sorts d = true
+    · simp only [hin, if_true]
+      obtain ⟨w', h1, h2, h3, h4, h5⟩ := declareMissingSorts_ok ds hI (fun d hd => hU d (List.mem_cons_of_mem _ hd))
+      refine ⟨w', h1, h2, h3, h4, ?_⟩
+      intro d' hd'
+      rcases List.mem_cons.mp hd' with rfl | h
+      · apply h3.sortsMono; rw [← inAny_map_sorts, ← hI.sorts]; exact hin
+      · exact h5 d' h
+    · have hin' : inAny w.sorts d = false := by simpa using hin
+      simp only [hin', Bool.false_eq_true, if_false]
+      obtain ⟨w1, e1, i1, p1, l1, o1⟩ := declareSort_ok hI d (hU d (List.mem_cons_self ..)) hin'
+      have f1 := frame_addSort d hI.nonempty p1 l1 o1
+      obtain ⟨w', h1, h2, h3, h4, h5⟩ := declareMissingSorts_ok ds i1 (fun d hd => hU d (List.mem_cons_of_mem _ hd))
+      refine ⟨w', ?_, h2, f1.trans h3, ?_, ?_⟩
+      · rw [M.bind_ok e1]; exact h1
+      · rw [h4, l1, map_syms_addSort]
+      · intro d' hd'
+        rcases List.mem_cons.mp hd' with rfl | h
+        · apply h3.sortsMono; rw [sortInScope_iff, l1, scopeSorts_addSort _ _ hI.nonempty]; exact List.mem_cons_self ..
+        · exact h5 d' h
+
+theorem declareMissingVars_ok {U : Universe} : ∀ (ss : List Sym) {w : W O}, Inv U w → (∀ s ∈ ss, U.sym s) →
+    (∀ s ∈ ss, ∀ u ∈ s.uses, sortNameInScope (levelsOf w) u = true) →
+    ∃ w', declareMissingVars ss w = (w', .ok ()) ∧ Inv U w' ∧ Frame w w' ∧
+      (levelsOf w').map (·.sorts) = (levelsOf w).map (·.sorts) ∧
+      (∀ s ∈ ss, symInScope (levelsOf w') s = true)
+  | [], w, hI, _, _ => ⟨w, rfl, hI, Frame.refl w, rfl, by simp⟩
+  | s :: ss, w, hI, hU, hS => by
+    have hstep : declareMissingVars (s :: ss) w =
+        (if inAny w.vars s then declareMissingVars ss else declareVar s >>= fun _ => declareMissingVars ss) w := rfl
+    rw [hstep]
+    by_cases hin : inAny w.vars s = true
+    · simp only [hin, if_true]
+      obtain ⟨w', h1, h2, h3, h4, h5⟩ := declareMissingVars_ok ss hI (fun s hs => hU s (List.mem_cons_of_mem _ hs))
+        (fun s hs => hS s (List.mem_cons_of_mem _ hs))
+      refine ⟨w', h1, h2, h3, h4, ?_⟩
+      intro s' hs'
+      rcases List.mem_cons.mp hs' with rfl | h
+      · apply h3.symsMono; rw [← inAny_map_syms, ← hI.vars]; exact hin
+      · exact h5 s' h
+    · have hin' : inAny w.vars s = false := by simpa using hin
+      simp only [hin', Bool.false_eq_true, if_false]
+      obtain ⟨w1, e1, i1, p1, l1, o1⟩ := declareVar_ok hI s (hU s (List.mem_cons_self ..)) hin'
+        (hS s (List.mem_cons_self ..))
+      have f1 := frame_addSym s hI.nonempty p1 l1 o1
+      obtain ⟨w', h1, h2, h3, h4, h5⟩ := declareMissingVars_ok ss i1 (fun s hs => hU s (List.mem_cons_of_mem _ hs))
+        (fun s hs u hu => f1.sortNamesMono u (hS s (List.mem_cons_of_mem _ hs) u hu))
+      refine ⟨w', ?_, h2, f1.trans h3, ?_, ?_⟩
+      · rw [M.bind_ok e1]; exact h1
+      · rw [h4, l1, map_sorts_addSym]
+      · intro s' hs'
+        rcases List.mem_cons.mp hs' with rfl | h
+        · apply h3.symsMono; rw [symInScope_iff, l1, scopeSyms_addSym _ _ hI.nonempty]; exact List.mem_cons_self ..
+        · exact h5 s' h
+
+/-! ## stack commands -/
+
+theorem Inv.setPending {U : Universe} {w : W O} (hI : Inv U w) (b : Bool) (hb : b = true → 2 ≤ (levelsOf w).length) :
+    Inv U ({ w with pendingPop := b } : W O) :=
+  { queue := hI.queue, alive := hI.alive, logic := hI.logic, notExited := hI.notExited, vars := hI.vars,
+    sorts := hI.sorts, nonempty := hI.nonempty, pending := hb, accepted := hI.accepted, usyms := hI.usyms,
+    usorts := hI.usorts }
+
+theorem pushBody_ok {U : Universe} {w : W O} (hI : Inv U w) (n : Nat) :
+    ∃ w', pushBody n w = (w', .ok ()) ∧ Inv U w' ∧ w'.pendingPop = w.pendingPop ∧
+      levelsOf w' = List.replicate n ({} : Level) ++ levelsOf w ∧ w'.chan.solver.2 = w.chan.solver.2 := by
+  have hl : legal w.chan.solver.1 (.push n) = true := by simp [legal, hI.notExited, hI.logic]
+  refine ⟨silentState w (.push n) (List.replicate n [] ++ w.vars) (List.replicate n [] ++ w.sorts) w.pendingPop,
+    ?_, ?_, rfl, rfl, rfl⟩
+  · show (sendSilent (.push n) >>= fun _ => M.modify fun w =>
+      { w with vars := List.replicate n [] ++ w.vars, sorts := List.replicate n [] ++ w.sorts }) w = _
+    rw [M.bind_ok (sendSilent_strict w _ hI.queue hl (by simp) (by simp))]
+    rfl
+  · refine hI.afterSilent (.push n) hl (by simp) (by simp) (by simp) _ _ _ ?_ ?_ ?_ ?_ ?_ ?_
+    · simp only [next, List.map_append, List.map_replicate]; rw [hI.vars]
+    · simp only [next, List.map_append, List.map_replicate]; rw [hI.sorts]
+    · simp only [next]; intro h; exact hI.nonempty (List.append_eq_nil_iff.mp h).2
+    · simp only [next, List.length_append, List.length_replicate]; intro h; have : 2 ≤ w.chan.solver.1.levels.length := hI.pending h; omega
+    · simp only [next, scopeSyms_replicate]; exact hI.usyms
+    · simp only [next, scopeSorts_replicate]; exact hI.usorts
+
+theorem popBody_ok {U : Universe} {w : W O} (hI : Inv U w) (n : Nat) (hn : n < (levelsOf w).length)
+    (hp : w.pendingPop = false) :
+    ∃ w', popBody n w = (w', .ok ()) ∧ Inv U w' ∧ w'.pendingPop = false ∧
+      levelsOf w' = (levelsOf w).drop n ∧ w'.chan.solver.2 = w.chan.solver.2 := by
+  have hl : legal w.chan.solver.1 (.pop n) = true := by simp [legal, hI.notExited, hI.logic, hn]
+  refine ⟨silentState w (.pop n) (w.vars.drop n) (w.sorts.drop n) w.pendingPop, ?_, ?_, hp, rfl, rfl⟩
+  · show (sendSilent (.pop n) >>= fun _ => M.modify fun w =>
+      { w with vars := w.vars.drop n, sorts := w.sorts.drop n }) w = _
+    rw [M.bind_ok (sendSilent_strict w _ hI.queue hl (by simp) (by simp))]
+    rfl
+  · refine hI.afterSilent (.pop n) hl (by simp) (by simp) (by simp) _ _ _ ?_ ?_ ?_ ?_ ?_ ?_
+    · simp only [next, List.map_drop]; rw [hI.vars]
+    · simp only [next, List.map_drop]; rw [hI.sorts]
+    · simp only [next]; intro h
+      have : ((levelsOf w).drop n).length = 0 := by rw [h]; rfl
+      rw [List.length_drop] at this; omega
+    · intro h; rw [hp] at h; cases h
+    · simp only [next]; intro s hs; exact hI.usyms s (scopeSyms_drop_subset n _ s hs)
+    · simp only [next]; intro d hd; exact hI.usorts d (scopeSorts_drop_subset n _ d hd)
+
+theorem clearPendingPop_ok {U : Universe} {w : W O} (hI : Inv U w) :
+    ∃ w', clearPendingPop w = (w', .ok ()) ∧ Inv U w' ∧ w'.pendingPop = false ∧
+      levelsOf w' = (if w.pendingPop then (levelsOf w).drop 1 else levelsOf w) ∧
+      w'.chan.solver.2 = w.chan.solver.2 := by
+  have hstep : clearPendingPop w = (if w.pendingPop = true then
+      M.modify (fun w => { w with pendingPop := false }) >>= fun _ => popBody 1 else pure ()) w := rfl
+  rw [hstep]
+  cases hp : w.pendingPop with
+  | false => exact ⟨w, by simp only [Bool.false_eq_true, if_false]; rfl, hI, hp, by simp, rfl⟩
+  | true =>
+    simp only [if_true]
+    have h2 := hI.pending hp
+    have hI' : Inv U ({ w with pendingPop := false } : W O) := hI.setPending false (by simp)
+    obtain ⟨w', e1, i1, p1, l1, o1⟩ := popBody_ok hI' 1 (by show 1 < (levelsOf w).length; omega) rfl
+    refine ⟨w', ?_, i1, p1, by simpa using l1, o1⟩
+    rw [M.bind_ok (M.run_modify _ w)]; exact e1
+
+theorem resetBody_ok {U : Universe} {w : W O} (hI : Inv U w) (hp : w.pendingPop = false) :
+    ∃ w', (sendSilent .resetAssertions >>= fun _ => M.modify fun w => { w with vars := [[]], sorts := [[]] }) w
+        = (w', .ok ()) ∧ Inv U w' ∧ w'.pendingPop = false ∧ levelsOf w' = [({} : Level)] ∧ w'.chan.solver.2 = w.chan.solver.2 := by
+  have hl : legal w.chan.solver.1 .resetAssertions = true := by simp [legal, hI.notExited, hI.logic]
+  refine ⟨silentState w .resetAssertions [[]] [[]] w.pendingPop, ?_, ?_, hp, rfl, rfl⟩
+  · rw [M.bind_ok (sendSilent_strict w _ hI.queue hl (by simp) (by simp))]
+    rfl
+  · refine hI.afterSilent .resetAssertions hl (by simp) (by simp) (by simp) _ _ _ ?_ ?_ ?_ ?_ ?_ ?_
+    · rfl
+    · rfl
+    · simp [next]
+    · intro h; rw [hp] at h; cases h
+    · simp [next, scopeSyms]
+    · simp [next, scopeSorts]
+
+theorem assert_ok {U : Universe} {w : W O} (hI : Inv U w) (e : Expr) (he : exprInScope (levelsOf w) e = true) :
+    ∃ w', sendSilent (.assert e) w = (w', .ok ()) ∧ Inv U w' ∧ w'.pendingPop = w.pendingPop ∧
+      levelsOf w' = addAssert e (levelsOf w) ∧ w'.chan.solver.2 = w.chan.solver.2 := by
+  have hl : legal w.chan.solver.1 (.assert e) = true := by
+    simp only [levelsOf] at he; simp [legal, hI.notExited, hI.logic, he]
+  refine ⟨silentState w (.assert e) w.vars w.sorts w.pendingPop, ?_, ?_, rfl, rfl, rfl⟩
+  · rw [sendSilent_strict w _ hI.queue hl (by simp) (by simp)]; rfl
+  · refine hI.afterSilent (.assert e) hl (by simp) (by simp) (by simp) _ _ _ ?_ ?_ ?_ ?_ ?_ ?_
+    · simp only [next, map_syms_addAssert]; exact hI.vars
+    · simp only [next, map_sorts_addAssert]; exact hI.sorts
+    · simp only [next]; exact ne_nil_of_length (length_addAssert _ _) hI.nonempty
+    · simp only [next, length_addAssert]; exact hI.pending
+    · simp only [next, scopeSyms_addAssert]; exact hI.usyms
+    · simp only [next, scopeSorts_addAssert]; exact hI.usorts
+
+/-! ## API methods -/
+
+/-- the solver's levels once a pending pop has been carried out -/
+def clearedLevels (w : W O) : List Level := if w.pendingPop then (levelsOf w).drop 1 else levelsOf w
+
+theorem sortName_of_sortInScope (ls : List Level) (d : SortDecl) (h : sortInScope ls d = true) :
+    sortNameInScope ls d.name = true := by
+  rw [sortInScope_iff] at h; rw [sortNameInScope_iff]; exact ⟨d, h, rfl⟩
+
+theorem addAssertion_ok {U : Universe} {w : W O} (hI : Inv U w) (e : Expr) (he : ExprOk U e) :
+    ∃ w', addAssertion e w = (w', .ok ()) ∧ Inv U w' ∧ w'.pendingPop = false ∧
+      (levelsOf w').length = (clearedLevels w).length ∧
+      (levelsOf w').map (·.asserts) = (addAssert e (clearedLevels w)).map (·.asserts) ∧
+      w'.chan.solver.2 = w.chan.solver.2 := by
+  obtain ⟨w1, e1, i1, p1, l1, o1⟩ := clearPendingPop_ok hI
+  obtain ⟨w2, e2, i2, f2, _, s2⟩ := declareMissingSorts_ok e.sorts i1 he.sorts
+  obtain ⟨w3, e3, i3, f3, _, s3⟩ := declareMissingVars_ok e.syms i2 he.syms (by
+    intro s hs u hu
+    obtain ⟨d, hd, hname⟩ := he.covers s hs u hu
+    rw [← hname]; exact sortName_of_sortInScope _ _ (s2 d hd))
+  have hscope : exprInScope (levelsOf w3) e = true := by
+    simp only [exprInScope, Bool.and_eq_true, List.all_eq_true]
+    exact ⟨s3, fun d hd => f3.sortsMono d (s2 d hd)⟩
+  obtain ⟨w4, e4, i4, p4, l4, o4⟩ := assert_ok i3 e hscope
+  refine ⟨w4, ?_, i4, ?_, ?_, ?_, ?_⟩
+  · show (clearPendingPop >>= fun _ => declareMissingSorts e.sorts >>= fun _ =>
+      declareMissingVars e.syms >>= fun _ => sendSilent (.assert e)) w = _
+    rw [M.bind_ok e1, M.bind_ok e2, M.bind_ok e3]; exact e4
+  · rw [p4, f3.pending, f2.pending]; exact p1
+  · rw [l4, length_addAssert, f3.length, f2.length, l1]; rfl
+  · have h23 := f3.asserts.trans f2.asserts
+    rw [l4]
+    have : ∀ (a b : List Level), a.map (·.asserts) = b.map (·.asserts) →
+        (addAssert e a).map (·.asserts) = (addAssert e b).map (·.asserts) := by
+      intro a b h
+      cases a <;> cases b <;> simp_all [addAssert]
+    rw [this _ _ h23, l1]; rfl
+  · rw [o4, f3.oracle, f2.oracle]; exact o1
+
+theorem push_ok {U : Universe} {w : W O} (hI : Inv U w) (n : Nat) :
+    ∃ w', push n w = (w', .ok ()) ∧ Inv U w' ∧ w'.pendingPop = false ∧
+      levelsOf w' = List.replicate n ({} : Level) ++ clearedLevels w ∧ w'.chan.solver.2 = w.chan.solver.2 := by
+  obtain ⟨w1, e1, i1, p1, l1, o1⟩ := clearPendingPop_ok hI
+  obtain ⟨w2, e2, i2, p2, l2, o2⟩ := pushBody_ok i1 n
+  refine ⟨w2, ?_, i2, p2.trans p1, by rw [l2, l1]; rfl, o2.trans o1⟩
+  show (clearPendingPop >>= fun _ => pushBody n) w = _
+  rw [M.bind_ok e1]; exact e2
+
+theorem pop_ok {U : Universe} {w : W O} (hI : Inv U w) (n : Nat) (hn : n < (clearedLevels w).length) :
+    ∃ w', pop n w = (w', .ok ()) ∧ Inv U w' ∧ w'.pendingPop = false ∧
+      levelsOf w' = (clearedLevels w).drop n ∧ w'.chan.solver.2 = w.chan.solver.2 := by
+  obtain ⟨w1, e1, i1, p1, l1, o1⟩ := clearPendingPop_ok hI
+  obtain ⟨w2, e2, i2, p2, l2, o2⟩ := popBody_ok i1 n (by rw [l1]; exact hn) p1
+  refine ⟨w2, ?_, i2, p2, by rw [l2, l1]; rfl, o2.trans o1⟩
+  show (clearPendingPop >>= fun _ => popBody n) w = _
+  rw [M.bind_ok e1]; exact e2
+
+theorem resetAssertions_ok {U : Universe} {w : W O} (hI : Inv U w) :
+    ∃ w', resetAssertions w = (w', .ok ()) ∧ Inv U w' ∧ w'.pendingPop = false ∧
+      levelsOf w' = [({} : Level)] ∧ w'.chan.solver.2 = w.chan.solver.2 := by
+  obtain ⟨w1, e1, i1, p1, _, o1⟩ := clearPendingPop_ok hI
+  obtain ⟨w2, e2, i2, p2, l2, o2⟩ := resetBody_ok i1 p1
+  refine ⟨w2, ?_, i2, p2, l2, o2.trans o1⟩
+  show (clearPendingPop >>= fun _ => sendSilent .resetAssertions >>= fun _ =>
+    M.modify fun w => { w with vars := [[]], sorts := [[]] }) w = _
+  rw [M.bind_ok e1]; exact e2
+
+/-! ## check-sat -/
+
+/-- the object after `(check-sat)` was written and its verdict read -/
+def checkedState (w : W O) : W O :=
+  { w with chan := ⟨(next w.chan.solver.1 (O.verdict w.chan.solver.2 w.chan.solver.1).1 .checkSat,
+                     (O.verdict w.chan.solver.2 w.chan.solver.1).2), [],
+                    w.chan.trace ++ [.send .checkSat, .recv (.verdict (O.verdict w.chan.solver.2 w.chan.solver.1).1)]⟩ }
+
+def verdictResult : Verdict → Except Err Bool
+  | .sat => .ok true
+  | .unsat => .ok false
+  | .unknown => .error .unknownResult
+
+theorem respond_checkSat (s : State × O.ω) (hl : legal s.1 .checkSat = true) :
+    respond O s .checkSat = ((next s.1 (O.verdict s.2 s.1).1 .checkSat, (O.verdict s.2 s.1).2),
+                             .verdict (O.verdict s.2 s.1).1) := by
+  simp only [respond, hl, if_true]
+
+theorem Inv.checked {U : Universe} {w : W O} (hI : Inv U w) : Inv U (checkedState w) := by
+  have hl : legal w.chan.solver.1 .checkSat = true := by simp [legal, hI.notExited, hI.logic]
+  exact {
+    queue := rfl, alive := hI.alive, logic := hI.logic, notExited := hI.notExited, vars := hI.vars,
+    sorts := hI.sorts, nonempty := hI.nonempty, pending := hI.pending,
+    accepted := by
+      have h := exec_snoc _ _ _ .checkSat hI.accepted (by rw [respond_checkSat _ hl]; rfl)
+      rw [respond_checkSat _ hl] at h
+      rw [stream_snoc_pair w _ .checkSat _ rfl]
+      exact h
+    usyms := hI.usyms, usorts := hI.usorts }
+
+theorem solve_ok {U : Universe} {w : W O} (hI : Inv U w) :
+    ∃ w1, clearPendingPop w = (w1, .ok ()) ∧ Inv U w1 ∧ w1.pendingPop = false ∧ levelsOf w1 = clearedLevels w ∧
+      w1.chan.solver.2 = w.chan.solver.2 ∧
+      solve w = (checkedState w1, verdictResult (O.verdict w1.chan.solver.2 w1.chan.solver.1).1) ∧
+      Inv U (checkedState w1) := by
+  obtain ⟨w1, e1, i1, p1, l1, o1⟩ := clearPendingPop_ok hI
+  refine ⟨w1, e1, i1, p1, l1, o1, ?_, i1.checked⟩
+  have hl : legal w1.chan.solver.1 .checkSat = true := by simp [legal, i1.notExited, i1.logic]
+  show (clearPendingPop >>= fun _ => send .checkSat >>= fun _ => recv >>= fun ans => match ans with
+    | .verdict .sat => pure true
+    | .verdict .unsat => pure false
+    | .verdict .unknown => M.throw .unknownResult
+    | _ => M.throw .solverError) w = _
+  rw [M.bind_ok e1]
+  simp only [M.run_bind, send, M.run_modify, recv, i1.queue, List.nil_append, respond_checkSat _ hl,
+    List.append_assoc, List.cons_append]
+  unfold checkedState verdictResult
+  cases (O.verdict w1.chan.solver.2 w1.chan.solver.1).1 <;> rfl
+
+/-! ## get-value / get_model -/
+
+/-- the object after `(get-value (e))` was written and the value read -/
+def valuedState (w : W O) (e : Expr) : W O :=
+  { w with chan := ⟨w.chan.solver, [], w.chan.trace ++
+      [.send (.getValue e), .recv (.value (O.value w.chan.solver.2 w.chan.solver.1 e))]⟩ }
+
+theorem respond_getValue (s : State × O.ω) (e : Expr) (hl : legal s.1 (.getValue e) = true) :
+    respond O s (.getValue e) = (s, .value (O.value s.2 s.1 e)) := by
+  simp only [respond, hl, if_true]
+
+theorem getValue_ok {U : Universe} {w : W O} (hI : Inv U w) (hsat : w.chan.solver.1.satMode = true) (e : Expr)
+    (he : exprInScope (levelsOf w) e = true) :
+    getValue e w = (valuedState w e, .ok (O.value w.chan.solver.2 w.chan.solver.1 e)) ∧ Inv U (valuedState w e) := by
+  have hl : legal w.chan.solver.1 (.getValue e) = true := by
+    simp only [levelsOf] at he; simp [legal, hI.notExited, hI.logic, hsat, he]
+  constructor
+  · show (send (.getValue e) >>= fun _ => recv >>= fun ans => match ans with
+      | .value v => pure v
+      | _ => M.throw .badValue) w = _
+    simp only [M.run_bind, send, M.run_modify, recv, hI.queue, List.nil_append, respond_getValue _ e hl,
+      List.append_assoc, List.cons_append]
+    rfl
+  · exact {
+      queue := rfl, alive := hI.alive, logic := hI.logic, notExited := hI.notExited, vars := hI.vars,
+      sorts := hI.sorts, nonempty := hI.nonempty, pending := hI.pending,
+      accepted := by
+        have h := exec_snoc _ _ _ (.getValue e) hI.accepted (by rw [respond_getValue _ e hl]; rfl)
+        rw [respond_getValue _ e hl] at h
+        rw [stream_snoc_pair w _ (.getValue e) _ rfl]
+        exact h
+      usyms := hI.usyms, usorts := hI.usorts }
+
+theorem getValues_ok {U : Universe} : ∀ (ss : List Sym) {w : W O}, Inv U w → w.chan.solver.1.satMode = true →
+    (∀ s ∈ ss, symInScope (levelsOf w) s = true) →
+    ∃ w', getValues ss w = (w', .ok (ss.map fun s => (s, O.value w.chan.solver.2 w.chan.solver.1 (Expr.ofSym s)))) ∧
+      Inv U w' ∧ w'.chan.solver = w.chan.solver ∧ w'.pendingPop = w.pendingPop ∧ w'.vars = w.vars ∧ w'.sorts = w.sorts
+  | [], w, hI, _, _ => ⟨w, rfl, hI, rfl, rfl, rfl, rfl⟩
+  | s :: ss, w, hI, hsat, hin => by
+    have he : exprInScope (levelsOf w) (Expr.ofSym s) = true := by
+      simp [exprInScope, Expr.ofSym, hin s (List.mem_cons_self ..)]
+    obtain ⟨e1, i1⟩ := getValue_ok hI hsat (Expr.ofSym s) he
+    obtain ⟨w', e2, i2, hs, hp, hv, hso⟩ := getValues_ok ss (w := valuedState w (Expr.ofSym s)) i1 hsat
+      (fun s hs => hin s (List.mem_cons_of_mem _ hs))
+    refine ⟨w', ?_, i2, hs, hp, hv, hso⟩
+    show (getValue (Expr.ofSym s) >>= fun v => getValues ss >>= fun rest => pure ((s, v) :: rest)) w = _
+    rw [M.bind_ok e1, M.bind_ok e2]
+    rfl
+
+theorem getModel_ok {U : Universe} {w : W O} (hI : Inv U w) (hsat : w.chan.solver.1.satMode = true) :
+    ∃ w', getModel w = (w', .ok ((w.vars.reverse.flatMap id).map fun s =>
+        (s, O.value w.chan.solver.2 w.chan.solver.1 (Expr.ofSym s)))) ∧
+      Inv U w' ∧ w'.chan.solver = w.chan.solver ∧ w'.pendingPop = w.pendingPop ∧ w'.vars = w.vars ∧ w'.sorts = w.sorts := by
+  have hin : ∀ s ∈ w.vars.reverse.flatMap id, symInScope (levelsOf w) s = true := by
+    intro s hs
+    rw [symInScope_iff]
+    simp only [List.mem_flatMap, List.mem_reverse, id] at hs
+    obtain ⟨l, hl, hsl⟩ := hs
+    rw [hI.vars, List.mem_map] at hl
+    obtain ⟨lv, hlv, rfl⟩ := hl
+    simp only [scopeSyms, List.mem_flatMap]
+    exact ⟨lv, hlv, hsl⟩
+  obtain ⟨w', e, r⟩ := getValues_ok (w.vars.reverse.flatMap id) hI hsat hin
+  refine ⟨w', ?_, r⟩
+  show (M.get >>= fun w => getValues (w.vars.reverse.flatMap id)) w = _
+  rw [M.bind_ok (M.run_get w)]; exact e
+
+/-! ## is_sat -/
+
+theorem levels_checkedState (w : W O) : levelsOf (checkedState w) = levelsOf w := rfl
+
+theorem isSat_ok {U : Universe} {w : W O} (hI : Inv U w) (e : Expr) (he : ExprOk U e) :
+    ∃ w3 : W O, Inv U w3 ∧ w3.pendingPop = false ∧
+      (levelsOf w3).map (·.asserts) = (addAssert e (({} : Level) :: clearedLevels w)).map (·.asserts) ∧
+      w3.chan.solver.2 = w.chan.solver.2 ∧
+      isSat e w = (({ checkedState w3 with pendingPop := true } : W O),
+                   verdictResult (O.verdict w3.chan.solver.2 w3.chan.solver.1).1) ∧
+      Inv U ({ checkedState w3 with pendingPop := true } : W O) := by
+  obtain ⟨w1, e1, i1, p1, l1, o1⟩ := push_ok hI 1
+  have hc1 : clearedLevels w1 = levelsOf w1 := by simp [clearedLevels, p1]
+  obtain ⟨w2, e2, i2, p2, len2, a2, o2⟩ := addAssertion_ok i1 e he
+  have hc2 : clearedLevels w2 = levelsOf w2 := by simp [clearedLevels, p2]
+  obtain ⟨w3, e3, i3, p3, l3, o3, e4, i4⟩ := solve_ok i2
+  have hlen : 2 ≤ (levelsOf w3).length := by
+    rw [l3, hc2, len2, hc1, l1]
+    have : clearedLevels w ≠ [] := by
+      obtain ⟨w0, _, i0, _, l0, _⟩ := clearPendingPop_ok hI
+      have := i0.nonempty
+      rw [l0] at this
+      exact this
+    cases h : clearedLevels w with
+    | nil => exact absurd h this
+    | cons _ _ => simp
+  refine ⟨w3, i3, p3, ?_, ?_, ?_, ?_⟩
+  · rw [l3, hc2, a2, hc1, l1]; rfl
+  · rw [o3, o2, o1]
+  · show (push 1 >>= fun _ => M.tryFinally (addAssertion e >>= fun _ => solve)
+      (fun w => { w with pendingPop := true })) w = _
+    rw [M.bind_ok e1, M.run_tryFinally, M.bind_ok e2, e4]
+  · exact i4.setPending true (fun _ => by rw [levels_checkedState]; exact hlen)
+
+/-! ## whole objects -/
+
+/-- Preconditions of the API calls (documented by pySMT, or inherent to the text interface):
+    `pop` stays within the levels the user pushed (the first level and the level `is_sat` leaves behind are not
+    the user's); model values are asked for only in sat mode; `get_value` only mentions symbols in scope (F36);
+    formulas come from one environment. -/
+def LegalCall (U : Universe) (w : W O) : Api → Prop
+  | .addAssertion e => ExprOk U e
+  | .push _ => True
+  | .pop n => n < (clearedLevels w).length
+  | .resetAssertions => True
+  | .solve => True
+  | .getValue e => w.chan.solver.1.satMode = true ∧ exprInScope (levelsOf w) e = true
+  | .getModel => w.chan.solver.1.satMode = true
+  | .isSat e => ExprOk U e
+  | .isValid e => ExprOk U e
+  | .isUnsat e => ExprOk U e
+  | .exit => True
+
+/-- every call of the sequence is legal in the state in which it is made (calls on an exited object do nothing) -/
+def LegalRun (U : Universe) : W O → List Api → Prop
+  | _, [] => True
+  | w, a :: as => (w.dead = false → LegalCall U w a) ∧ LegalRun U (step w a).1 as
+
+/-- what survives `exit()` -/
+structure Final (w : W O) : Prop where
+  vars : w.vars = (levelsOf w).map (·.syms)
+  sorts : w.sorts = (levelsOf w).map (·.sorts)
+  accepted : exec O (State.init, O.init) (stream w) = some w.chan.solver
+
+theorem Inv.final {U : Universe} {w : W O} (h : Inv U w) : Final w := ⟨h.vars, h.sorts, h.accepted⟩
+
+def GInv (U : Universe) (w : W O) : Prop := Inv U w ∨ (w.dead = true ∧ Final w)
+
+theorem GInv.final {U : Universe} {w : W O} (h : GInv U w) : Final w := by
+  rcases h with h | ⟨_, h⟩
+  · exact h.final
+  · exact h
+
+theorem stream_snoc_send {S : Solver} (w w' : WState S) (c : Cmd)
+    (h : w'.chan.trace = w.chan.trace ++ [Event.send c]) : stream w' = stream w ++ [c] := by
+  simp [stream, h, List.filterMap_append]
+
+theorem exit_ok {U : Universe} {w : W O} (hI : Inv U w) : (exitBody w).1.dead = true ∧ Final (exitBody w).1 := by
+  have hl : legal w.chan.solver.1 .exit = true := by simp [legal, hI.notExited]
+  have hr := respond_silent w.chan.solver .exit hl (by simp) (by simp)
+  have hs : (exitBody w).1.chan.solver = (next w.chan.solver.1 .unknown .exit, w.chan.solver.2) := by
+    show (respond O w.chan.solver .exit).1 = _
+    rw [hr]
+  refine ⟨rfl, ?_, ?_, ?_⟩
+  · show w.vars = (exitBody w).1.chan.solver.1.levels.map (·.syms)
+    rw [hs]; exact hI.vars
+  · show w.sorts = (exitBody w).1.chan.solver.1.levels.map (·.sorts)
+    rw [hs]; exact hI.sorts
+  · have h := exec_snoc _ _ _ .exit hI.accepted (by rw [hr]; rfl)
+    rw [stream_snoc_send w (exitBody w).1 .exit rfl]
+    exact h
+
+theorem call_inv {U : Universe} {w : W O} (hI : Inv U w) (a : Api) (hl : LegalCall U w a) : GInv U (call a w).1 := by
+  cases a with
+  | addAssertion e =>
+    obtain ⟨w', h, i, _⟩ := addAssertion_ok hI e hl
+    left; simp only [call, outOf_fst, h]; exact i
+  | push n =>
+    obtain ⟨w', h, i, _⟩ := push_ok hI n
+    left; simp only [call, outOf_fst, h]; exact i
+  | pop n =>
+    obtain ⟨w', h, i, _⟩ := pop_ok hI n hl
+    left; simp only [call, outOf_fst, h]; exact i
+  | resetAssertions =>
+    obtain ⟨w', h, i, _⟩ := resetAssertions_ok hI
+    left; simp only [call, outOf_fst, h]; exact i
+  | solve =>
+    obtain ⟨w1, _, _, _, _, _, h, i⟩ := solve_ok hI
+    left; simp only [call, outOf_fst, h]; exact i
+  | getValue e =>
+    obtain ⟨h, i⟩ := getValue_ok hI hl.1 e hl.2
+    left; simp only [call, outOf_fst, h]; exact i
+  | getModel =>
+    obtain ⟨w', h, i, _⟩ := getModel_ok hI hl
+    left; simp only [call, outOf_fst, h]; exact i
+  | isSat e =>
+    obtain ⟨w3, _, _, _, _, h, i⟩ := isSat_ok hI e hl
+    left; simp only [call, outOf_fst, h]; exact i
+  | isValid e =>
+    obtain ⟨w3, _, _, _, _, h, i⟩ := isSat_ok hI e hl
+    left; simp only [call, outOf_fst, h]; exact i
+  | isUnsat e =>
+    obtain ⟨w3, _, _, _, _, h, i⟩ := isSat_ok hI e hl
+    left; simp only [call, outOf_fst, h]; exact i
+  | exit =>
+    right; simp only [call, outOf_fst]; exact exit_ok hI
+
+theorem step_ginv {U : Universe} {w : W O} (h : GInv U w) (a : Api) (hl : w.dead = false → LegalCall U w a) :
+    GInv U (step w a).1 := by
+  unfold step
+  rcases h with hI | ⟨hd, hf⟩
+  · simp only [hI.alive, Bool.false_eq_true, if_false]
+    exact call_inv hI a (hl hI.alive)
+  · simp only [hd, if_true]
+    exact Or.inr ⟨hd, hf⟩
+
+theorem runFrom_ginv {U : Universe} : ∀ (ops : List Api) (w : W O), GInv U w → LegalRun U w ops → GInv U (runFrom w ops).1
+  | [], _, h, _ => h
+  | a :: as, w, h, hl => runFrom_ginv as (step w a).1 (step_ginv h a hl.1) hl.2
+
+/-! ## the constructor -/
+
+def createdState (O : Oracle) (logic : String) : W O :=
+  { vars := [[]], sorts := [[]], pendingPop := false, dead := false,
+    chan := ⟨({ State.init with logicSet := true }, O.init), [],
+      [.send (.setOption ":print-success" "true"), .recv .success,
+       .send (.setOption ":diagnostic-output-channel" "\"stdout\""), .recv .success,
+       .send (.setOption ":produce-models" "true"), .recv .success,
+       .send (.setLogic logic), .recv .success]⟩ }
+
+theorem sendSilent_strict' (w : W O) (c : Cmd) (hq : w.chan.queue = []) (hl : legal w.chan.solver.1 c = true)
+    (hc : c ≠ .checkSat) (hg : ∀ e, c ≠ .getValue e) :
+    sendSilent c w = (silentState w c w.vars w.sorts w.pendingPop, .ok ()) := sendSilent_strict w c hq hl hc hg
+
+theorem create_strict (O : Oracle) (logic : String) : create (Solver.strict O) logic = createdState O logic := by
+  let w0 : W O := blank (Solver.strict O)
+  let c1 : Cmd := .setOption ":print-success" "true"
+  let c2 : Cmd := .setOption ":diagnostic-output-channel" "\"stdout\""
+  let c3 : Cmd := .setOption ":produce-models" "true"
+  let c4 : Cmd := .setLogic logic
+  let w1 : W O := silentState w0 c1 w0.vars w0.sorts w0.pendingPop
+  let w2 : W O := silentState w1 c2 w1.vars w1.sorts w1.pendingPop
+  let w3 : W O := silentState w2 c3 w2.vars w2.sorts w2.pendingPop
+  have e1 : sendSilent c1 w0 = (w1, .ok ()) :=
+    sendSilent_strict' w0 c1 rfl (by show legal State.init c1 = true; decide) (by simp [c1]) (by simp [c1])
+  have e2 : sendSilent c2 w1 = (w2, .ok ()) :=
+    sendSilent_strict' w1 c2 rfl (by show legal State.init c2 = true; decide) (by simp [c2]) (by simp [c2])
+  have e3 : sendSilent c3 w2 = (w3, .ok ()) :=
+    sendSilent_strict' w2 c3 rfl (by show legal State.init c3 = true; decide) (by simp [c3]) (by simp [c3])
+  have e4 : sendSilent c4 w3 = (createdState O logic, .ok ()) :=
+    sendSilent_strict' w3 c4 rfl (by show legal State.init c4 = true; rfl) (by simp [c4]) (by simp [c4])
+  have : initBody logic (blank (Solver.strict O)) = (createdState O logic, .ok ()) := by
+    show (sendSilent c1 >>= fun _ => sendSilent c2 >>= fun _ => sendSilent c3 >>= fun _ => sendSilent c4) w0 = _
+    rw [M.bind_ok e1, M.bind_ok e2, M.bind_ok e3, e4]
+  unfold create
+  rw [this]
+
+theorem inv_created (U : Universe) (O : Oracle) (logic : String) : Inv U (createdState O logic) where
+  queue := rfl
+  alive := rfl
+  logic := rfl
+  notExited := rfl
+  vars := rfl
+  sorts := rfl
+  nonempty := by simp [levelsOf, createdState, State.init]
+  pending := by intro h; cases h
+  accepted := by
+    simp only [stream, createdState, List.filterMap_cons, exec]
+    rfl
+  usyms := by simp [levelsOf, createdState, State.init, scopeSyms]
+  usorts := by simp [levelsOf, createdState, State.init, scopeSorts]
 
 end PySMT.SmtSolver
